@@ -29,10 +29,18 @@ def tasks(tier, seed):
         func("bt.core.HedgeSecurity.update"),
         func("bt.core.CouponPayingHedgeSecurity.update"),
         dict(kind="custom", module="props.lemmas", fn="c07_trade_lemmas"),
+        dict(kind="custom", module="props.bounded", fn="run_script", script="c07_ledger", seed=seed, n=30 if tier == "quick" else 800, props=["C07"]),
     ]
 
 
+def post(results, tier, seed):
+    b = [r["bounded"] for r in results if r.get("bounded")]
+    return None, dict(bounded_stand_ins=b, bounded_note="real operation histories: every trade audited on the accumulators, every node's cash row reconciled date by date; never counted in obligations/discharged")
+
+
 def replay(o):
+    if o.get("replay_inline"):
+        return o["replay_inline"]
     from pyvc.concrete import replay_scenario
 
     return replay_scenario(o)
